@@ -779,6 +779,98 @@ def run_structured(case):
             "err": err}
 
 
+# ---------------------------------------------------------------------------
+# 9. local (pairwise / per-label) contraction inside hyper networks
+# ---------------------------------------------------------------------------
+
+@st.composite
+def s_partial_hyper(draw, tier):
+    desc = draw(G.networks(min_tensors=3, max_tensors=6, hyper=True, repeat=False, unique_tags=True, dims=(1, 2, 3),
+                           kinds=("gauss", "gauss", "uniform_pos", "int")))
+    # make sure a label sits on >= 3 tensors (constructed, not hoped for)
+    cnt = G.net_counts(desc)
+    if not any(c >= 3 for c in cnt.values()):
+        labels = sorted(desc["sizes"]) or ["a"]
+        l = draw(st.sampled_from(labels))
+        if l not in desc["sizes"]:
+            desc["sizes"][l] = 2
+        added = 0
+        for t in desc["tensors"]:
+            if l not in t["inds"] and added < 3:
+                t["inds"].append(l)
+                added += 1
+    n = len(desc["tensors"])
+    steps = draw(st.lists(st.tuples(st.sampled_from(["between", "ind", "tags"]), st.integers(0, 1000), st.integers(0, 1000)),
+                          min_size=1, max_size=3))
+    return {"net": desc, "steps": [list(x) for x in steps]}
+
+
+def run_partial_hyper(case):
+    desc = case["net"]
+    tn, expo = build(desc)
+    want = tuple(G.net_outer(desc))
+    ref, mag = G.ref_value(desc, want)
+    tol = tol_of(desc) * 10
+    done = []
+    hyper_touched = False
+    for kind, i, j in case["steps"]:
+        if tn.num_tensors < 2:
+            break
+        tags = sorted(t for t in tn.tag_map if t.startswith("T") and len(tn.tag_map[t]) == 1)
+        cnt = {}
+        for t in tn:
+            for ix in t.inds:
+                cnt[ix] = cnt.get(ix, 0) + 1
+        if kind == "between":
+            if len(tags) < 2:
+                continue
+            t1, t2 = tags[i % len(tags)], tags[j % len(tags)]
+            if t1 == t2:
+                continue
+            shared = set(tn[t1].inds) & set(tn[t2].inds)
+            hyper_touched |= any(cnt[ix] >= 3 for ix in shared)
+            tn.contract_between(t1, t2)
+        elif kind == "ind":
+            inner = sorted(ix for ix, c in cnt.items() if c >= 2)
+            if not inner:
+                continue
+            ix = inner[i % len(inner)]
+            # other hyper labels carried by the tensors being merged must survive when they still sit elsewhere
+            carriers = [t for t in tn if ix in t.inds]
+            hyper_touched |= any(cnt[l] >= 3 and l != ix and sum(l in t.inds for t in carriers) >= 2 for t in carriers for l in t.inds)
+            tn.contract_ind(ix)
+        else:
+            if len(tags) < 2:
+                continue
+            sel = sorted({tags[i % len(tags)], tags[j % len(tags)]})
+            if len(sel) < 2:
+                continue
+            # documented: a hyper network needs explicit output_inds for a tag-wise partial contraction
+            keep = set(want)
+            for t in tn:
+                if not (set(t.tags) & set(sel)):
+                    keep.update(t.inds)
+            sel_inds = []
+            for s_ in sel:
+                for ix in tn[s_].inds:
+                    if ix not in sel_inds:
+                        sel_inds.append(ix)
+            out = tuple(ix for ix in sel_inds if ix in keep)
+            shared = set(tn[sel[0]].inds) & set(tn[sel[1]].inds)
+            hyper_touched |= any(cnt[ix] >= 3 for ix in shared)
+            tn.contract_tags_(sel, which="any", output_inds=out)
+        done.append(kind)
+        if not set(want) <= set(tn.ind_map):
+            raise Violation("outer-label-lost", step=kind, lost=sorted(set(want) - set(tn.ind_map)), hyper_touched=hyper_touched)
+        got = einsum_value([(a.astype(np.complex128), i_) for a, i_ in tn_tensors(tn)], want) * 10.0 ** (float(tn.exponent) - expo)
+        e = rel_err(got, ref, floor=mag)
+        if not e <= tol:
+            raise Violation("value", err=e, route="partial_hyper:" + kind, steps=done, hyper_touched=hyper_touched)
+    if not done:
+        raise Reject("no applicable step")
+    return {"nt": hyper_touched, "cls": ["step=" + d for d in done] + (["hyper-label-partially-covered"] if hyper_touched else []), "err": 0.0}
+
+
 SUBCHECKS = [
     SubCheck("contract_all", run_contract_all, s_contract_all, examples=(250, 4000), shards=(2, 8),
              rule="full contraction through 7 routes x 7 optimizers/paths/trees x strip_exponent; nt: >=2 tensors and (exponent!=0 or hyper or non-default route/optimizer)"),
@@ -794,6 +886,10 @@ SUBCHECKS = [
              rule="sequences of 1-4 exponent book-keeping operations (multiply, negate, distribute, equalize, strip, select, partition, combine) then evaluation; all nt"),
     SubCheck("linop", run_linop, s_linop, examples=(300, 4000), shards=(2, 6),
              rule="TNLinearOperator built 3 ways, composed views (H,T,conj,astype,neg) x 7 actions vs dense matrix; all nt"),
+    SubCheck("partial_hyper", run_partial_hyper, s_partial_hyper, examples=(250, 4000), shards=(1, 4),
+             rule="hyper networks with a label on >= 3 tensors (constructed) x 1-3 local contractions (contract_between, contract_ind, "
+                  "contract_tags_ with explicit output_inds): the remaining network still denotes the value; nt: a step merged some but "
+                  "not all carriers of a hyper label"),
     SubCheck("structured_1d", run_structured, s_structured, examples=(150, 2500), shards=(1, 4),
              rule="MPS/MPO/overlap/expectation networks contracted structurally (..., slices, bsz 1-5, exponent); nt: L>=3 and (exponent or slice or bsz>1)"),
 ]
